@@ -22,7 +22,7 @@ Inductive dmode := DNone | DFar | DNear.
 (** What the driver saw. [ORet r started ready sendhook pmid]: the call
     returned [r]; at that moment the secondary's Exec had been entered /
     "fallback.secondary.ready" / "fallback.secondary.send" / "fallback.primary.mid"
-    had been reached. [OHung]: the call did not return within 8 s.
+    had been reached. [OHung]: the call did not return within 4 s.
     [OBad]: it returned something that is neither worker's answer nor one of the
     three errors, or an error together with a response. *)
 Inductive obs := OHung | OBad | ORet (r : result) (started ready sendhook pmid : bool).
